@@ -852,6 +852,7 @@ func runStoreC03s(o *opts) error {
 	tmp := o.get("tmp", os.TempDir())
 	stats := map[string]int{}
 	storeExtraReads = c03IndexReads
+	c03bWriteCoq(o.out)
 	c03fWriteCoq(o.out) // the schemas of the family wirings as Examples/C03Wirings.v must hold them (compared by checks/c03.py)
 	n := 400
 	if o.thorough() {
@@ -889,12 +890,23 @@ func runStoreC03s(o *opts) error {
 		return nil
 	}
 	famK := -1 // >= 0: the next history is number famK of the systematic family stream (store_c03f.go)
+	sepK := -1 // >= 0: the next history is number sepK of the regrouping stream (store_c03b.go) over the separator curSep
+	curSep := ""
+	curProf := prof
 	one := func(r *rng, w *wiring, i int, cross bool) error {
 		w.derive()
-		g := &histGen{r: r, w: w, p: prof, ids: prof.ids}
+		g := &histGen{r: r, w: w, p: curProf, ids: curProf.ids}
 		var txs []hTx
 		var c, obs string
-		if famK >= 0 {
+		if sepK >= 0 {
+			txs = (&warmGen{histGen: g, cross: cross}).c03bRegroupHistory(sepK, curSep)
+			stats["histories_regroup"]++
+			var err error
+			c, obs, err = runHistory(w, txs, tmp)
+			if err != nil {
+				return err
+			}
+		} else if famK >= 0 {
 			txs = (&warmGen{histGen: g, cross: cross}).c03fFamilyHistory(famK)
 			stats["histories_family"]++
 			var err error
@@ -1003,6 +1015,35 @@ func runStoreC03s(o *opts) error {
 		stats["family_histories"]++
 	}
 	famK = -1
+	// values that are re-groupings of one character sequence over a separator, bare child stores under indexed parents
+	// (store_c03b.go; own random stream): live, warm, regrouping and family histories in turn, one separator per group
+	rb := newRng(o.seed*32452843 + 41)
+	nSep := n / 4
+	for i := 0; i < nSep; i++ {
+		grp := i / 4
+		w := wiringByName(c03bStream[grp%len(c03bStream)])
+		curSep = c03bSepFor(grp)
+		sp2 := *prof
+		sp2.vals = c03bUniverse(curSep)
+		curProf = &sp2
+		famK, sepK = -1, -1
+		switch i % 4 {
+		case 2:
+			sepK = grp / len(c03bStream)
+		case 3:
+			if len(c03fFamily(w)) > 1 {
+				famK = rb.intn(64)
+			} else {
+				sepK = grp/len(c03bStream) + 1
+			}
+		}
+		if err := one(rb, w, i%4, true); err != nil {
+			return err
+		}
+		stats["separator_histories"]++
+		stats["separator_"+hxs(curSep)]++
+	}
+	famK, sepK, curProf = -1, -1, prof
 	writeJSON(o.out, "stats.json", stats)
 	fmt.Fprintf(os.Stderr, "store_c03s: %d histories\n", n)
 	return nil
